@@ -355,6 +355,12 @@ class PollHandler(Handler):
             return it.body.debug_name(r[4])
         if r[0] == "rv" and r[1]["k"] == "use":
             pl = r[1]["op"]["pl"]
+            ints = [e for e in pl["p"] if isinstance(e, int)]
+            if ints and "TopicProj" in it.body.local_ty(pl["l"]):
+                # a field of the undestructured pin-projection (`this.next_id`)
+                names = [f["name"] for f in self.cfg.proj_adt["variants"][0]["fields"]]
+                if ints[0] < len(names):
+                    return names[ints[0]]
             return it.body.debug_name(pl["l"]) or "_%d" % pl["l"]
         return "?"
 
